@@ -104,11 +104,22 @@ Section Compose.
     { unfold sorted_files. apply Forall_map. eapply Forall_impl; [|exact Hclear]. intros n Hcl. exact Hcl. }
     (* whole-archive form: C16_benign_extracted_linear *)
     destruct (benign_extracted_linear_any_fs out ns blocks f Hreal Hben Hpw Hclear) as (f2 & He2 & Hr2 & _).
+    (* benign names with a clear way: the pre-pass accepts every name, so `export` holds them all *)
+    assert (Hacc : accepted_names out ns f = ns).
+    { destruct (create_all_clear out ns f Hreal Hben Hpw Hclear) as (f' & Hca & _).
+      unfold accepted_names. rewrite Hca. cbn [fst snd]. rewrite map_map. cbn [fst]. apply map_id. }
     exists f1, f2. rewrite H1, H2. split; [exact He1|]. split; [exact He2|].
-    intros n d Hin. split.
+    intros n d Hin.
+    assert (Hn : In n ns).
+    { unfold ns. eapply Permutation_in; [symmetry; apply sort_names_perm|]. change n with (fst (n, d)). apply in_map. exact Hin. }
+    split.
     - destruct (Hr1 n d (in_sorted_files files n d Hnd Hin)) as (_ & _ & Hrf). exact Hrf.
     - rewrite (Hr2 n).
-      + f_equal. exact (Hdel n d Hin).
+      + f_equal.
+        assert (Hni : name_in ns n = true).
+        { unfold name_in. apply existsb_exists. exists n. split; [exact Hn|apply bytes_eqb_refl]. }
+        transitivity (if name_in (accepted_names out ns f) n then d else []); [exact (Hdel n d Hin)|].
+        rewrite Hacc, Hni. reflexivity.
       + unfold ns. eapply Permutation_in; [symmetry; apply sort_names_perm|]. change n with (fst (n, d)). apply in_map. exact Hin.
   Qed.
 
